@@ -9,6 +9,7 @@ import Goat.Driver.Check
 import Goat.Driver.IntMap
 import Goat.Driver.CF
 import Goat.Driver.Call
+import Goat.Driver.Slice
 /-! goatmodel: one operation per input line, one canonical output line per operation. -/
 open Goat.Driver
 
@@ -16,6 +17,7 @@ structure DriverState where
   omap : OMapState := {}
   scope : Goat.Scope.C := {}
   imap : IMapState := {}
+  slice : SliceState := {}
 
 def step (st : DriverState) (line : String) : DriverState × String :=
   match (line.trimAscii.toString.splitOn " ").filter (· ≠ "") with
@@ -24,6 +26,7 @@ def step (st : DriverState) (line : String) : DriverState × String :=
   | "load" :: args => (st, loadCmd args)
   | "tsort" :: args => (st, tsortCmd args)
   | "opt" :: args => (st, optCmd args)
+  | "slice" :: args => let (s, o) := sliceCmd st.slice args; ({ st with slice := s }, o)
   | "call" :: args => (st, callCmd args)
   | "cf" :: args => (st, cfCmd args)
   | "imap" :: args => let (s, o) := imapCmd st.imap args; ({ st with imap := s }, o)
